@@ -81,7 +81,7 @@ class C05(Check):
                    'pairs within max(1e-9 relative, 1e-11 deg) of L changes the partition',
                    'the mutual consistency of the four arrays is checked on every case, decided or not',
                    'the order in which next[] visits the members of a group is not prescribed by the property']
-    REQUIRED_COUNTERS = ('groups_spanning_chunks', 'replicated_points', 'chunk_fof_calls', 'perm_variants',
+    REQUIRED_COUNTERS = ('groups_spanning_chunks', 'undecided_cases', 'band_pairs_harmless', 'replicated_points', 'chunk_fof_calls', 'perm_variants',
                          'chunksize_variants', 'enforced_minimum_chunksize', 'near_threshold_links', 'seam_cases',
                          'polar_slice_cases', 'multi_member_groups', 'lattice_cases')
 
@@ -128,7 +128,7 @@ class C05(Check):
             'clusters': 160 if q else 6000,
             'coincident': 80 if q else 2500,
             'two_points': 160 if q else 5000,
-            'clamped': 160 if q else 5000,
+            'clamped': 300 if q else 5000,
             'lattice': 900 if q else LAT_TOTAL,
         }
 
@@ -164,6 +164,8 @@ class C05(Check):
     def _link_factor(self, rng, gap_p=0.12):
         """separation of consecutive chain members in units of L"""
         r = rng.random()
+        if r < 0.003:
+            return 1.0 + rng.choice([-1.0, 1.0]) * 1e-10        # inside the ambiguity band on purpose
         if r < gap_p:
             return rng.choice([rng.uniform(1.001, 1.5), 1.0 + 10.0 ** -rng.choice([2, 3, 4, 5, 6, 7])])
         if r < 0.3:
@@ -508,6 +510,9 @@ class C05(Check):
         decided = sure == maybe
         if not decided:
             out.undecide(1)
+            out.count('undecided_cases')
+        elif nband:
+            out.count('band_pairs_harmless')        # pairs in the band, but both readings give the same partition
         Sf = S.astype('d')
         iu = np.triu_indices(n, 1)
         out.count('near_threshold_links', int((np.abs(Sf[iu] - L) < 1e-3 * L).sum()))
